@@ -1,0 +1,35 @@
+//! Hooks used by the external verification harness.
+//!
+//! Everything here is inert unless the harness switches it on at run time.
+use std::sync::atomic::{AtomicBool, AtomicU64, Ordering};
+
+static VIRTUAL_CLOCK_ON: AtomicBool = AtomicBool::new(false);
+static VIRTUAL_CLOCK: AtomicU64 = AtomicU64::new(0);
+
+/// The virtual time if the virtual clock is enabled.
+#[must_use]
+pub fn virtual_now() -> Option<u64> {
+    if VIRTUAL_CLOCK_ON.load(Ordering::SeqCst) {
+        Some(VIRTUAL_CLOCK.load(Ordering::SeqCst))
+    } else {
+        None
+    }
+}
+
+/// Enable the virtual clock and set it to `t`.
+pub fn set_virtual_now(t: u64) {
+    VIRTUAL_CLOCK.store(t, Ordering::SeqCst);
+    VIRTUAL_CLOCK_ON.store(true, Ordering::SeqCst);
+}
+
+/// Advance the virtual clock by `d` (saturating), returns the new time.
+pub fn advance_virtual_now(d: u64) -> u64 {
+    let t = VIRTUAL_CLOCK.load(Ordering::SeqCst).saturating_add(d);
+    VIRTUAL_CLOCK.store(t, Ordering::SeqCst);
+    t
+}
+
+/// Disable the virtual clock.
+pub fn clear_virtual_now() {
+    VIRTUAL_CLOCK_ON.store(false, Ordering::SeqCst);
+}
